@@ -324,6 +324,18 @@ func init() {
 	reg("Symbolic", func(e *Exec, fv *FuncV, args []Value, cc *ssa.CallCommon) (Value, bool) {
 		return e.C.True, false
 	})
+	reg("Terminates", func(e *Exec, fv *FuncV, args []Value, cc *ssa.CallCommon) (Value, bool) {
+		// Terminates(n, label): from here on the path may execute at most n more SSA instructions; n = 0 ends the
+		// obligation. Exceeding the budget on a feasible path is a violation of kind "wedge" (a handler that spins).
+		n := e.concreteInt(args[0], "step budget")
+		if n <= 0 {
+			e.termLabel = ""
+			return nil, false
+		}
+		e.termLabel = e.strArg(args[1])
+		e.termBudget = e.Stats.Steps + n
+		return nil, false
+	})
 	reg("Tier", func(e *Exec, fv *FuncV, args []Value, cc *ssa.CallCommon) (Value, bool) {
 		if e.Opts.Tier == "thorough" {
 			return e.C.BVConst(64, 1), false
